@@ -204,6 +204,11 @@ func (w *world) judge() {
 			case pick == lastData:
 				kind = "packet-missing-before-" + iv.Leave
 			}
+			if w.cfg.Secure && strings.Contains(strings.Join(derrs, " "), "auth tag") && w.wrappedBefore(pick, iv.From) {
+				// SRTP: the reader was set up while the format's sequence number was about to wrap; the roll-over
+				// counter it got in SETUP/DESCRIBE is stale from the first packet on
+				kind = "packet-missing-after-play/srtp-auth-failed-after-seq-wrap"
+			}
 			var ms []string
 			for _, i := range missing[:min(len(missing), 6)] {
 				ms = append(ms, w.written[i].String())
@@ -219,6 +224,18 @@ func (w *world) judge() {
 	}
 	w.checkTap(byTag)
 	w.res.Outcome = strings.Join(out, ";") + fmt.Sprintf("|w%d/e%d|f%d", len(w.written), w.res.WriteErrs, len(w.fails))
+}
+
+// wrappedBefore reports whether the sequence number of packet idx's (media, format) wrapped between the last
+// packet written to it before the reader's PLAY (index < from) and packet idx.
+func (w *world) wrappedBefore(idx, from int) bool {
+	wr := w.written[idx]
+	for i := from - 1; i >= 0; i-- {
+		if p := w.written[i]; p.Tgt == wr.Tgt && p.Err == "" {
+			return wr.Seq < p.Seq
+		}
+	}
+	return false
 }
 
 // ---------------------------------------------------------------- tap: no cross-channel delivery
